@@ -201,6 +201,10 @@ structure Cfg where
   maxSize : Nat      -- maxUncompressedBlockSize
   /-- the F8 repair of `mustInitFromDataPoints` (index test instead of zero sentinels) -/
   fixedInit : Bool := true
+  /-- `mergeBatchMaxRows`: row cap of one `PullBatch` call -/
+  batchRows : Nat := 4096
+  /-- the F57 repair of `mergeBatch`: a full batch is cut only between data points -/
+  batchFinishRun : Bool := true
 deriving Repr
 
 def defaultCfg : Cfg := { maxLen := 8192, maxSize := 2097152 }
@@ -577,6 +581,51 @@ def pullAll (q : Query) (choose : List Cursor → Nat) : Nat → List Cursor →
 
 def totalRows (cs : List Cursor) : Nat := (cs.map List.length).sum
 
+/-- `queryResult.mergeBatch` (query_batch.go), the columnar counterpart of `merge`: one batch of at most
+    `maxRows` rows of one series run. Pinned code (`finishRun = false`): the loop condition
+    `b.RowCount() < mergeBatchMaxRows` cuts the batch wherever it fills up; repaired (F57): a full batch is
+    cut only when the heap root is not another copy of the last emitted (series, timestamp).
+    Unlike `merge`, `lastVersion` is updated on a replace. -/
+def mergeBatchPull (q : Query) (choose : List Cursor → Nat) (maxRows : Nat) (finishRun : Bool) :
+    Nat → List Cursor → PullSt → List Row × List Cursor
+  | 0, cs, st => (st.result, cs)
+  | fuel + 1, cs, st =>
+    if cs = [] then (st.result, cs)
+    else if !finishRun ∧ st.result.length ≥ maxRows then (st.result, cs)
+    else
+      let i := choose cs
+      match cs[i]? with
+      | some (top :: _) =>
+        if st.lastSid ≠ 0 ∧ top.sid ≠ st.lastSid then (st.result, cs)
+        else
+          let isDup := match st.result.getLast? with | some l => decide (top.ts = l.ts) | none => false
+          if finishRun ∧ st.result.length ≥ maxRows ∧ isDup = false then (st.result, cs)
+          else
+            let st1 := { st with lastSid := top.sid }
+            let st2 :=
+              if isDup then
+                (if top.ver > st1.lastVersion then
+                  { st1 with result := st1.result.dropLast ++ [top], lastVersion := top.ver } else st1)
+              else { st1 with result := st1.result ++ [top], lastVersion := top.ver }
+            mergeBatchPull q choose maxRows finishRun fuel (advance cs i) st2
+      | _ => (st.result, cs)
+
+/-- all `PullBatch()` calls, flattened. One cursor left ⇒ `copyAllToBatch` (the rest of the block as is). -/
+def pullAllBatch (q : Query) (choose : List Cursor → Nat) (maxRows : Nat) (finishRun : Bool) : Nat → List Cursor → List Row
+  | 0, _ => []
+  | fuel + 1, cs =>
+    match cs with
+    | [] => []
+    | [c] => c
+    | _ =>
+      let (res, cs') := mergeBatchPull q choose maxRows finishRun (totalRows cs + 1) cs {}
+      if res = [] then [] else res ++ pullAllBatch q choose maxRows finishRun fuel cs'
+
+/-- the rows the columnar read path returns for a list of parts -/
+def queryPartsBatch (cfg : Cfg) (q : Query) (parts : List (List Block)) : List Row :=
+  let cs := cursorsOf q parts
+  pullAllBatch q (minIdx q) cfg.batchRows cfg.batchFinishRun (totalRows cs + 1) cs
+
 /-- the rows a query returns for a list of parts (each a list of blocks) -/
 def queryParts (q : Query) (parts : List (List Block)) : List Row :=
   let cs := cursorsOf q parts
@@ -638,6 +687,13 @@ def Table.query (t : Table) (q : Query) : List Row :=
     let (mn, mx) := partMinMax p
     !(decide (q.tmax < mn) || decide (q.tmin > mx))
   queryParts q (ps.map (·.blocks))
+
+/-- the same query through `PullBatch` -/
+def Table.queryBatch (cfg : Cfg) (t : Table) (q : Query) : List Row :=
+  let ps := t.parts.filter fun p =>
+    let (mn, mx) := partMinMax p
+    !(decide (q.tmax < mn) || decide (q.tmin > mx))
+  queryPartsBatch cfg q (ps.map (·.blocks))
 
 def Table.run (cfg : Cfg) (ops : List Op) : Table := ops.foldl (Table.step cfg) {}
 
@@ -789,7 +845,9 @@ def runOp (cfg : Cfg) (schemas : Array Schema) (t : Table) (op : List String) : 
         | some sids, some tmin, some tmax, some ord =>
           let q : Query := { sids := sids, tmin := tmin, tmax := tmax, order := ord }
           let sc := schemas[k]!
-          (t, " ".intercalate ("R" :: (t.query q).map (renderRow sc)))
+          let rowRes := " ".intercalate ("R" :: (t.query q).map (renderRow sc))
+          let batchRes := " ".intercalate ("R" :: (t.queryBatch cfg q).map (renderRow sc))
+          (t, if batchRes = rowRes then rowRes else rowRes ++ " #B" ++ dropFirst batchRes)
         | _, _, _, _ => (t, "bad-op")
       | _, _ => (t, "bad-op")
     | c :: k =>
